@@ -137,7 +137,7 @@ ChangeExecutor(s, p) ==
                !.params = [@ EXCEPT !.execs = p.execs]]
 PlanDevs(s, p) ==      \* situations in which the code's plan handling departs from the intended outcome
   (IF Has(s.vals, p.op) THEN {"PlanReusesOperator"} ELSE {})
-  \cup (IF Has(s.cons, p.key) /\ s.cons[p.key] # p.op THEN {"PlanReusesKey"} ELSE {})
+  \cup (IF Has(s.cons, p.key) /\ Has(s.vals, s.cons[p.key]) /\ s.cons[p.key] # p.op THEN {"PlanReusesKey"} ELSE {})   \* index entry AND the record it points to
 
 EndBlock_G(s, e) == [ phase |-> InBlock(s) ]
 EndBlock_E(s, e) ==
@@ -181,6 +181,7 @@ ExportImport_E(s, e) ==
   \* InitGenesis(exported) returns one update per last-power entry; a fresh engine starts from exactly those
   LET upd == [k \in {s.vals[o].key : o \in DOMAIN s.lastPow} |-> LET o == CHOOSE x \in DOMAIN s.lastPow : s.vals[x].key = k IN s.lastPow[o]]
   IN [s EXCEPT !.hist = EmptyMap, !.comet = upd, !.cometOK = TRUE,
+               !.cons = [k \in {s.vals[o].key : o \in DOMAIN s.vals} |-> CHOOSE o \in DOMAIN s.vals : s.vals[o].key = k],   \* the index is rebuilt from the validator records
                !.batch = [i \in 1..Len(SortOps(DOMAIN s.lastPow, s.rank)) |->
                             LET o == SortOps(DOMAIN s.lastPow, s.rank)[i] IN [key |-> s.vals[o].key, power |-> s.lastPow[o]]]]
 
